@@ -420,3 +420,29 @@ def run(repo: Repo, rep: Report, tier: str) -> None:
     from .shared import borrow as _borrow1
     _borrow1(repo, rep, "C10", "C10-R3", "C01-R9", "`cond : value` delivers the value the program wrote: deciders that differ in their output value (or any other semantic field) are never merged",
              select=lambda o: "IRDecider." in o.construct, floor=4)
+
+    # ---------------- R10 --------------------------------------------------------------
+    rep.rule("C01-R10", "`cond : value` with a value that is inlined as a literal outputs that literal: a decider placement copies the count from its input only when its output value is a "
+             "signal (a copy-count decider whose value was inlined has nothing on its input to copy: `(x < 0) : (0 - 1)` would output nothing)")
+    from .util import canon as _c10r
+    epc = repo.cls("EntityPlacer")
+    n10r = 0
+    for m10r in epc.methods.values():
+        cm10 = None
+        for call10 in calls_in(m10r.node, "create_and_add_placement"):
+            et10 = kwarg(call10, "entity_type")
+            if not (isinstance(et10, ast.Constant) and et10.value == "decider-combinator"):
+                continue
+            cc10, ov10 = kwarg(call10, "copy_count_from_input"), kwarg(call10, "output_value")
+            if cc10 is None or ov10 is None:
+                continue
+            cm10 = cm10 or _c10r(m10r)
+            tcc, tov = cm10.text(cc10), cm10.text(ov10)
+            if "op.copy_count_from_input" not in tcc or "get_operand_for_combinator(" not in tov:
+                continue
+            n10r += 1
+            ok10 = f"isinstance({tov}, int)" in tcc and "not" in tcc
+            rep.check(ok10, "C01-R10", f"{m10r.short}: copy-count mode only when the output value stays a signal",
+                      "copy_count_from_input and not isinstance(<inlined output value>, int)" if ok10 else
+                      f"copy_count_from_input={tcc[:60]} although output_value={tov[:60]} can be an inlined literal: the decider then copies a signal that is not on its input and outputs nothing", m10r.loc(call10))
+    rep.floor("C01-R10", "decider placements with an inlinable output value", n10r, 2)
